@@ -265,6 +265,29 @@ fn crafted(rng: &mut Rng) -> Vec<(String, Vec<u8>)> {
         body.extend(anmf(&f));
         v.push((format!("huge_canvas_{cw}x{ch}"), riff(&body)));
     }
+    // synthetic VP8 key frames (random-symbol partitions, generator-chosen boundary header fields:
+    // loop-filter deltas +-63, levels 0/63, segment values +-63/+-127, quantiser extremes, 1..8
+    // partitions, all intra modes, arbitrary coefficients), whole and cut short inside every partition
+    for i in 0..260u32 {
+        let (fw, fh) = (1 + rng.below(40) as u32, 1 + rng.below(40) as u32);
+        let style = rng.next();
+        let (vp8, _) = crate::c02::synth_frame(rng, fw, fh, style);
+        let file = riff(&chunk(b"VP8 ", &vp8));
+        if i % 4 == 0 {
+            let cut = 10 + rng.below(vp8.len() as u64 - 10) as usize;
+            v.push((format!("synthvp8:truncated@{fw}x{fh}"), riff(&chunk(b"VP8 ", &vp8[..cut]))));
+        }
+        if i % 4 == 1 {
+            // first-partition size field pointing past the end / to zero
+            let mut b = vp8.clone();
+            let tag = u32::from(b[0]) | u32::from(b[1]) << 8 | u32::from(b[2]) << 16;
+            let newsize: u32 = *rng.pick(&[0u32, 1, 7, (1 << 19) - 1, vp8.len() as u32]);
+            let t2 = (tag & 31) | (newsize << 5);
+            b[..3].copy_from_slice(&t2.to_le_bytes()[..3]);
+            v.push((format!("synthvp8:partsize@{fw}x{fh}"), riff(&chunk(b"VP8 ", &b))));
+        }
+        v.push((format!("synthvp8:whole@{fw}x{fh}"), file));
+    }
     v
 }
 
@@ -276,7 +299,7 @@ pub fn run(o: &Opts) -> Report {
         judge(&mut drv, &mut rep, "replay", &file);
         return rep;
     }
-    rep.rule = "corpus of valid files of every kind (simple lossless/lossy, extended, lossy+ALPH raw/lossless, libwebp lossless with palette/transforms/cache, metadata, mixed animation) x {every prefix; every chunk size field set to 13 boundary values; every fourcc replaced by 8 others; each of the 28 bytes after every chunk header set to {00,01,7f,80,ff}; random bit flips / byte replacements; chunk deletion and duplication} + crafted cross-field disagreements (ANMF vs VP8 dimensions, ALPH followed by non-VP8, over/under-subscribed code lengths, huge canvases); every case driven through new, all accessors with two memory limits, read_image, read_frame to exhaustion twice with reset, in a checked build under catch_unwind with a time budget; plus the container parser's outcome compared with Container.openFile. distinct_nontrivial = distinct mutated byte strings".into();
+    rep.rule = "corpus of valid files of every kind (simple lossless/lossy, extended, lossy+ALPH raw/lossless, libwebp lossless with palette/transforms/cache, metadata, mixed animation) x {every prefix; every chunk size field set to 13 boundary values; every fourcc replaced by 8 others; each of the 28 bytes after every chunk header set to {00,01,7f,80,ff}; random bit flips / byte replacements; chunk deletion and duplication} + crafted cross-field disagreements (ANMF vs VP8 dimensions, ALPH followed by non-VP8, over/under-subscribed code lengths, huge canvases, synthetic random-symbol VP8 key frames with boundary header fields - whole, truncated, with wrong partition sizes); every case driven through new, all accessors with two memory limits, read_image, read_frame to exhaustion twice with reset, in a checked build under catch_unwind with a time budget; plus the container parser's outcome compared with Container.openFile. distinct_nontrivial = distinct mutated byte strings".into();
     let mut rng = Rng::new(o.seed ^ 0xC03);
     if o.thorough() || std::env::var("VERIF_BIGMEM").is_ok() {
         // canvases of 2^30 pixels and more need multi-GiB output buffers
